@@ -14,12 +14,19 @@
      returned by ANY successful call of either session (commands, replies, control messages, chunk-size changes, media), delivered
      in ANY fragmentation to a deserializer linked with that session's serializer, are decoded as exactly one message per packet,
      in order, without error, and the link holds again: the two chunk layers never desynchronize in any schedule.
-   PARTIAL: the message-level protocol of the command phases (connect / createStream / publish / play / stop) are exercised, not proved: the composed model
+   - C02_connect_completes (ProtocolProofs.v): the message-level connect exchange, proved for EVERY application name, client
+     configuration and clock readings: request_connection's packet, handed to a server linked with the client, raises exactly
+     ConnectionRequested with the application name (trailing slash stripped) under a fresh request id and nothing else; the
+     server's accept of that id produces one packet which, handed to the client, completes its connect transaction - the client
+     raises ConnectionAccepted, is Connected to the application it asked for, announces its window and chunk size, and the two
+     chunk layers are linked again.  The only other outcomes are the declared body-too-large errors (an application name of
+     megabytes).  C02_connect_request_delivered / C02_connect_accept_delivered are the two halves with any acknowledgement state.
+   PARTIAL: the message-level protocol of the remaining command phases (createStream / publish / play / stop) is exercised, not proved: the composed model
    Model/Interop.v (extracted and compared with the two real sessions wired back to back on every case) runs them under
    byte-wise / fixed / mixed fragmentation with the oracles C02.* on the real events, and scenario_publish / scenario_play
    are computed instances reaching the states the theorems start from; metadata items are covered by the same runs. *)
-From RML Require Import Model.Base Model.Chunk Model.ChunkSer Model.ChunkDe Model.Messages Model.SessionCommon Model.Server Model.Client
-  Model.Interop Proofs.ChunkSerProofs Proofs.InteropProofs Proofs.SessionPartition Proofs.ClientPartition Proofs.InteropPartition Proofs.MetadataProofs Proofs.InteropMetadata Proofs.Transport Proofs.ServerProofs Proofs.SessionFrame Proofs.SessionTrace Proofs.ClientTrace Proofs.SessionTransport.
+From RML Require Import Model.Base Model.Utf8 Model.Float Model.Amf0 Model.Chunk Model.ChunkSer Model.ChunkDe Model.Messages Model.SessionCommon Model.Server Model.Client
+  Model.Interop Proofs.ChunkSerProofs Proofs.InteropProofs Proofs.SessionPartition Proofs.ClientPartition Proofs.InteropPartition Proofs.MetadataProofs Proofs.InteropMetadata Proofs.Transport Proofs.ServerProofs Proofs.SessionFrame Proofs.SessionTrace Proofs.ClientTrace Proofs.SessionTransport Proofs.ProtocolProofs Proofs.FloatProofs.
 From Coq Require Import String.
 Local Open Scope N_scope.
 
@@ -105,6 +112,55 @@ Theorem C02_server_call_transport : forall s op de pieces,
   end.
 Proof. exact server_call_transport. Qed.
 
+Theorem C02_connect_request_delivered : forall c s app clock sclock,
+  Link (cl_ser c) (sv_de s) -> ser_ok (sv_ser s) -> cl_state c = Disconnected -> strings_ok c app -> clock < 4294967296 ->
+  (exists e, client_request_connection c app clock = (fst (client_request_connection c app clock), CErr e)) \/
+  exists b c1 s1 rs,
+    client_request_connection c app clock = (c1, COk [CPacket b false]) /\
+    cl_state c1 = Disconnected /\ lookup (cl_next_tr c) (cl_trs c1) = Some (TConnection app) /\
+    server_handle_input s b sclock = (s1, ROk rs) /\
+    events rs = [EvConnectionRequested (sv_next_req s) (strip_slash app)] /\
+    lookup (sv_next_req s) (sv_reqs s1) = Some (RConnection (strip_slash app) (u32_to_f64 (cl_next_tr c))) /\
+    sv_connected s1 = sv_connected s /\ sv_fms s1 = sv_fms s /\ sv_objenc s1 = 0 /\
+    Link (cl_ser c1) (sv_de s1) /\ ser_ok (sv_ser s1) /\ cl_de c1 = cl_de c /\ cl_cfg c1 = cl_cfg c /\
+    (ack_window (sv_ack s) = None -> sv_ser s1 = sv_ser s /\ rs = [SEvent (EvConnectionRequested (sv_next_req s) (strip_slash app))]).
+Proof. exact connect_request_delivered. Qed.
+
+Theorem C02_connect_accept_delivered : forall s c n app' trn app clock cclock,
+  Link (sv_ser s) (cl_de c) -> ser_ok (cl_ser c) -> ser_ok (sv_ser s) ->
+  lookup n (sv_reqs s) = Some (RConnection app' (u32_to_f64 trn)) -> trn < 4294967296 ->
+  lookup trn (cl_trs c) = Some (TConnection app) ->
+  accept_strings_ok s app' -> clock < 4294967296 -> cclock < 4294967296 ->
+  1 <= cc_chunk (cl_cfg c) <= 2147483647 ->
+  (exists e, snd (server_accept s n clock) = RErr e) \/
+  exists b s2 c2 rs b1 b2 pre,
+    server_accept s n clock = (s2, ROk [SPacket b false]) /\
+    sv_connected s2 = true /\ sv_app s2 = Some app' /\ lookup n (sv_reqs s2) = None /\
+    client_handle_input c b cclock = (c2, COk rs) /\
+    rs = pre ++ [CPacket b1 false; CEvent CConnectionAccepted; CPacket b2 false] /\ cevents pre = [] /\
+    cl_state c2 = Connected /\ cl_app c2 = Some app /\ lookup trn (cl_trs c2) = None /\
+    Link (sv_ser s2) (cl_de c2) /\ ser_ok (cl_ser c2) /\ s_max (cl_ser c2) = cc_chunk (cl_cfg c).
+Proof. exact connect_accept_delivered. Qed.
+
+Theorem C02_connect_completes : forall c s app clock sclock aclock cclock,
+  Link (cl_ser c) (sv_de s) -> Link (sv_ser s) (cl_de c) -> ser_ok (cl_ser c) -> ser_ok (sv_ser s) ->
+  cl_state c = Disconnected -> strings_ok c app -> ack_window (sv_ack s) = None ->
+  utf8_valid (sv_fms s) = true -> utf8_valid (str "Successfully connected on app: " ++ strip_slash app) = true ->
+  clock < 4294967296 -> aclock < 4294967296 -> cclock < 4294967296 -> 1 <= cc_chunk (cl_cfg c) <= 2147483647 ->
+  (exists e, client_request_connection c app clock = (fst (client_request_connection c app clock), CErr e)) \/
+  (exists b c1 s1 rs e, client_request_connection c app clock = (c1, COk [CPacket b false]) /\
+     server_handle_input s b sclock = (s1, ROk rs) /\ snd (server_accept s1 (sv_next_req s) aclock) = RErr e) \/
+  exists b1 c1 s1 b2 s2 c2 rs pre w1 w2,
+    client_request_connection c app clock = (c1, COk [CPacket b1 false]) /\
+    server_handle_input s b1 sclock = (s1, ROk [SEvent (EvConnectionRequested (sv_next_req s) (strip_slash app))]) /\
+    server_accept s1 (sv_next_req s) aclock = (s2, ROk [SPacket b2 false]) /\
+    client_handle_input c1 b2 cclock = (c2, COk rs) /\
+    rs = pre ++ [CPacket w1 false; CEvent CConnectionAccepted; CPacket w2 false] /\ cevents pre = [] /\
+    cl_state c2 = Connected /\ cl_app c2 = Some app /\
+    sv_connected s2 = true /\ sv_app s2 = Some (strip_slash app) /\
+    Link (sv_ser s2) (cl_de c2) /\ s_max (cl_ser c2) = cc_chunk (cl_cfg c).
+Proof. exact connect_completes. Qed.
+
 Example C02_scenario_publish :
   filter is_media_or_lifecycle (server_events_of (ex_run ex_publish_ops)) =
   [ EvConnectionRequested 0 (str "live");
@@ -136,3 +192,6 @@ Print Assumptions C02_transport.
 Print Assumptions C02_client_call_transport.
 Print Assumptions C02_server_call_transport.
 Print Assumptions C02_metadata_mapping_identity.
+Print Assumptions C02_connect_request_delivered.
+Print Assumptions C02_connect_accept_delivered.
+Print Assumptions C02_connect_completes.
